@@ -1,5 +1,6 @@
 import Driver.Util
 import NixModel.Pure.Dim
+import NixModel.Pure.DimSession
 open Lean Nix.Dim
 
 /-!
@@ -14,6 +15,16 @@ integers as JSON integers, a missing value as `null`.
   ["range_tick_at", [tick…], index]                        ["range_axis", [tick…], count, start]
   ["set_index_of", n, pos, mode]                           ["set_range_indices", n, s, e, smode]
   ["to_index_mode", smode]                                 → {"ok": "less" | "leq" | "geq" | null}
+
+  ["session", [op, …]]                                     → {"ok": [answer, …]}   (a whole history; `NixModel/Pure/DimSession.lean`)
+     op = ["append_sampled", si] | ["append_range"] | ["append_set"] | ["new_src", src] | ["write_src", k, src]
+        | ["open", d] | ["set_offset", h, v|null] | ["set_interval", h, v] | ["set_ticks", h, [tick…]]
+        | ["set_labels", h, n] | ["link_array", h, k, [i…]] | ["link_frame", h, k, col] | ["unlink", h]
+        | ["set_unit", h, u] | ["set_label", h, l]
+        | ["index_of", h, pos, mode] | ["range_indices", h, s, e, smode] | ["position_at", h, i]
+        | ["axis", h, count, start|null, startpos|null]
+     src = ["vec", [x…]] | ["mat", [[x…]…], ncols] | ["frame", [[x…]…], ncols]
+     answer = {"ok": …} as above ({"ok": "done"} for a change) | {"err": …} | {"bad": "na"}
 
 `mode` is an `IndexMode` member name (aliases accepted; anything else is "not a member"), `smode`
 is "Exclusive" or "Inclusive" (anything else: `ValueError`, as the code's first test).
@@ -74,17 +85,107 @@ def outRats (r : Except Nix.Err (List Rat)) : Json :=
   | .ok l => ok (Json.arr (l.map fun x => Json.str (ratStr x)).toArray)
   | .error e => err e
 
+open Nix.DimSession in
+def jSrc? (j : Json) : Option Source :=
+  match jArr j |>.toList with
+  | [Json.str "vec", v] => (jRats? v).map Source.vec
+  | [Json.str "mat", rows, nc] =>
+    match (jArr rows).toList.mapM jRats?, jInt? nc with
+    | some rows, some nc => if 0 ≤ nc then some (Source.mat rows nc.toNat) else none
+    | _, _ => none
+  | [Json.str "frame", rows, nc] =>
+    match (jArr rows).toList.mapM jRats?, jInt? nc with
+    | some rows, some nc => if 0 ≤ nc then some (Source.frame rows nc.toNat) else none
+    | _, _ => none
+  | _ => none
+
+def jNat? (j : Json) : Option Nat :=
+  match jInt? j with
+  | some i => if 0 ≤ i then some i.toNat else none
+  | none => none
+
+open Nix.DimSession in
+def jOp? (j : Json) : Option Op :=
+  match jArr j |>.toList with
+  | [Json.str "append_sampled", si] => (jRat? si).map Op.appendSampled
+  | [Json.str "append_range"] => some .appendRange
+  | [Json.str "append_set"] => some .appendSet
+  | [Json.str "new_src", s] => (jSrc? s).map Op.newSrc
+  | [Json.str "write_src", k, s] =>
+    match jNat? k, jSrc? s with
+    | some k, some s => some (.writeSrc k s)
+    | _, _ => none
+  | [Json.str "open", d] => (jNat? d).map Op.openH
+  | [Json.str "set_offset", h, v] =>
+    match jNat? h, jOptRat? v with
+    | some h, some v => some (.setOffset h v)
+    | _, _ => none
+  | [Json.str "set_interval", h, v] =>
+    match jNat? h, jRat? v with
+    | some h, some v => some (.setInterval h v)
+    | _, _ => none
+  | [Json.str "set_ticks", h, t] =>
+    match jNat? h, jRats? t with
+    | some h, some t => some (.setTicks h t)
+    | _, _ => none
+  | [Json.str "set_labels", h, n] =>
+    match jNat? h, jNat? n with
+    | some h, some n => some (.setLabels h n)
+    | _, _ => none
+  | [Json.str "link_array", h, k, iv] =>
+    match jNat? h, jNat? k, (jArr iv).toList.mapM jInt? with
+    | some h, some k, some iv => some (.linkArray h k iv)
+    | _, _, _ => none
+  | [Json.str "link_frame", h, k, c] =>
+    match jNat? h, jNat? k, jInt? c with
+    | some h, some k, some c => some (.linkFrame h k c)
+    | _, _, _ => none
+  | [Json.str "unlink", h] => (jNat? h).map Op.unlink
+  | [Json.str "set_unit", h, u] => (jNat? h).map fun h => Op.setUnit h (jStr u)
+  | [Json.str "set_label", h, l] => (jNat? h).map fun h => Op.setLabel h (jStr l)
+  | [Json.str "index_of", h, pos, mode] =>
+    match jNat? h, jRat? pos with
+    | some h, some pos => some (.query h (.indexOf pos (jMode mode)))
+    | _, _ => none
+  | [Json.str "range_indices", h, s, e, sm] =>
+    match jNat? h, jRat? s, jRat? e, jSlice? sm with
+    | some h, some s, some e, some sm => some (.query h (.rangeIndices s e sm))
+    | _, _, _, _ => none
+  | [Json.str "position_at", h, i] =>
+    match jNat? h, jInt? i with
+    | some h, some i => some (.query h (.positionAt i))
+    | _, _ => none
+  | [Json.str "axis", h, count, start, sp] =>
+    match jNat? h, jInt? count, jOptInt? start, jOptRat? sp with
+    | some h, some count, some start, some sp => some (.query h (.axis count start sp))
+    | _, _, _, _ => none
+  | _ => none
+
+open Nix.DimSession in
+def outAns : Ans → Json
+  | .idx r => outInt r
+  | .pair r => outPair r
+  | .pos r => outRat r
+  | .axis r => outRats r
+  | .unit => ok (Json.str "done")
+  | .fail e => err e
+  | .na => bad "na"
+
 def handle (j : Json) : Json :=
   match jArr j |>.toList with
+  | [Json.str "session", ops] =>
+    match (jArr ops).toList.mapM jOp? with
+    | some ops => ok (Json.arr ((Nix.DimSession.run {} ops).2.map outAns).toArray)
+    | none => bad "C07: session: malformed operation"
   | [Json.str "sampled_index_of", off, si, pos, mode] =>
     match jOff? off, jRat? si, jRat? pos with
-    | some off, some si, some pos => outInt (sampledIndexOf off si pos (jMode mode))
+    | some off, some si, some pos => outInt (Nix.DimSession.sampledIndexOfZ off si pos (jMode mode))
     | _, _, _ => bad "C07: sampled_index_of arguments"
   | [Json.str "sampled_range_indices", off, si, s, e, sm] =>
     match jOff? off, jRat? si, jRat? s, jRat? e with
     | some off, some si, some s, some e =>
       match jSlice? sm with
-      | some sm => outPair (sampledRangeIndices off si s e sm)
+      | some sm => outPair (Nix.DimSession.sampledRangeIndicesZ off si s e sm)
       | none => err .valueError
     | _, _, _, _ => bad "C07: sampled_range_indices arguments"
   | [Json.str "sampled_position_at", off, si, idx] =>
